@@ -90,7 +90,7 @@ def gen_schedule_program(rng, idx):
     """schedule classes (requests only delayed / reordered, never lost): a lock request of one region held back until the
     rollback of its key; the background rollback of a failed call paused until the call was retried; a transaction kept open
     beyond its managed TTL (keep-alive); a first lock that fails outright (no primary may stay)"""
-    kind = rng.choice(["hold", "hold", "late_rollback", "late_rollback", "keepalive", "first_fails"])
+    kind = rng.choice(["hold", "hold", "late_rollback", "late_rollback", "keepalive", "first_fails", "stale_resolve"])
     L = lambda ks, **kw: dict({"t": "t1", "op": "lock", "ks": ks, "wait": -1}, **kw)
     prog = [{"t": "t2", "op": "begin"}, {"t": "t1", "op": "begin"}]
     sc = {"id": f"s{idx}", "backend": BACKEND, "splits": [], "preload": [{"k": k, "v": "old-" + k} for k in KEYS if rng.random() < 0.6], "batch_size": 0,
@@ -120,6 +120,25 @@ def gen_schedule_program(rng, idx):
             if rng.random() < 0.5:
                 prog.append({"t": "t1", "op": "set", "k": rng.choice(ks), "v": "z"})
         fin()
+    elif kind == "stale_resolve":
+        # half-failed first statement (primary given up, rollback delayed) -> leftover lock expires -> resolved by another
+        # transaction on the same client -> the victim continues under a new primary and commits while a reader on that
+        # client meets one of its prewrite locks (primary commit held back)
+        ks = rng.sample(KEYS, 5)
+        kp, ka2, kx, kn, ks2 = ks               # old primary, leftover, key t2 holds, new primary, secondary
+        sc["splits"] = ["k2", "k3", "k4", "k5"]
+        sc["preload"] = [{"k": k, "v": "old-" + k} for k in KEYS]
+        sc["managed_ttl"] = 60
+        sc["txns"]["t6"] = {"mode": "2pc", "pessimistic": True, "ops": [], "client": "c1"}
+        sc["txns"]["t7"] = {"mode": "2pc", "pessimistic": rng.random() < 0.5, "ops": [], "client": "c1"}
+        prog += [{"t": "t2", "op": "lock", "ks": [kx], "wait": -1}, {"t": "t1", "op": "failpoint", "k": FP_ROLLBACK, "v": "pause"},
+                 L(sorted([kp, ka2]) + [kx]), {"t": "t2", "op": "rollback"}, {"t": "t1", "op": "sleep", "wait": 150},
+                 {"t": "t6", "op": "begin"}, {"t": "t6", "op": "lock", "ks": [rng.choice([kp, ka2])], "wait": 30}, {"t": "t6", "op": "rollback"},
+                 L([kn]), {"t": "t1", "op": "set", "k": kn, "v": "n1"}, {"t": "t1", "op": "set", "k": ks2, "v": "n2"},
+                 {"t": "t1", "op": "commit", "async": True}, {"t": "t7", "op": "begin"},
+                 {"t": "t7", "op": rng.choice(["get", "get", "lock"]), "k": ks2, "ks": [ks2], "wait": 30}, {"t": "t1", "op": "join"},
+                 {"t": "t1", "op": "failpoint", "k": FP_ROLLBACK, "v": ""}, {"t": "t7", "op": "rollback"}]
+        sc["extras"] = [{"what": "hold", "cmd": "Commit", "k": kn, "until": "ResolveLock", "max_ms": 250}]
     elif kind == "keepalive":
         sc["managed_ttl"] = 300
         if rng.random() < 0.7:
@@ -211,7 +230,7 @@ def gen_program(rng, idx):
     prog.append({"t": "t1", "op": rng.choice(["commit", "commit", "rollback"])})
     if not t2_done:
         prog.append({"t": "t2", "op": rng.choice(["commit", "rollback"])})
-    return decorate(rng, {"id": f"g{idx}", "backend": BACKEND, "splits": splits, "preload": preload, "batch_size": rng.choice([0, 0, 24]),
+    return decorate(rng, {"id": f"g{idx}", "backend": BACKEND, "splits": splits, "preload": preload, "batch_size": rng.choice([0, 0, 24, 2, 3, 5]),
             "txn": {"mode": "2pc", "ops": []}, "txns": txns, "program": prog, "keys": KEYS, "black_from": -1})
 
 
@@ -309,6 +328,28 @@ def directed():
     # the first lock of the transaction is a single-key call failing with write conflict / key exists: no primary may stay
     out.append(sc(59, B + [A("fu_take"), {"t": "t2", "op": "set", "k": "k1", "v": "c"}, {"t": "t2", "op": "commit"}, L(["k1"], v="fu_saved"), L(["k2"]), {"t": "t1", "op": "set", "k": "k2", "v": "x"}, A("commit")]))
     out.append(sc(60, B + [{"t": "t1", "op": "insert", "k": "k1", "v": "i"}, L(["k3"]), {"t": "t1", "op": "set", "k": "k3", "v": "x"}, A("commit"), {"t": "t2", "op": "rollback"}]))
+    # a half-failed first statement gives its primary up while the background rollback of the locks it did take is delayed;
+    # the transaction continues under a new primary; after the leftover lock expired another transaction ON THE SAME CLIENT
+    # resolves it (CheckTxnStatus on the old primary only says "that pessimistic lock is gone"); a reader on that client then
+    # meets a prewrite lock of the still living transaction while its primary commit is held back: it must ask the real
+    # primary, not conclude "rolled back" (oracle W: an acknowledged commit has all its keys committed)
+    prog70 = B + [{"t": "t2", "op": "lock", "ks": ["k3"], "wait": -1}, {"t": "t1", "op": "failpoint", "k": FP, "v": "pause"}, L(["k1", "k2", "k3"]),
+                  {"t": "t2", "op": "rollback"}, {"t": "t1", "op": "sleep", "wait": 150},
+                  {"t": "t6", "op": "begin"}, {"t": "t6", "op": "lock", "ks": ["k2"], "wait": 30}, {"t": "t6", "op": "rollback"},
+                  L(["k4"]), {"t": "t1", "op": "set", "k": "k4", "v": "n4"}, {"t": "t1", "op": "set", "k": "k5", "v": "n5"},
+                  dict(A("commit"), **{"async": True}), {"t": "t7", "op": "begin"}, {"t": "t7", "op": "get", "k": "k5"}, {"t": "t1", "op": "join"},
+                  {"t": "t1", "op": "failpoint", "k": FP, "v": ""}, {"t": "t7", "op": "rollback"}]
+    out.append(sc(70, prog70, pre=("k1", "k2", "k3", "k4", "k5"), splits=("k2", "k3", "k4", "k5")))
+    out[-1]["txns"]["t6"] = {"mode": "2pc", "pessimistic": True, "ops": [], "client": "c1"}
+    out[-1]["txns"]["t7"] = {"mode": "2pc", "pessimistic": False, "ops": [], "client": "c1"}
+    out[-1]["managed_ttl"] = 60
+    out[-1]["extras"] = [{"what": "hold", "cmd": "Commit", "k": "k4", "until": "ResolveLock", "max_ms": 250}]
+    # several pessimistic-lock batches inside ONE region (batch limit of 2 key bytes = one key per batch; batches != regions):
+    # a later batch fails with write conflict / key exists after earlier ones locked their keys -> all keys are rolled back
+    out.append(sc(61, B + [A("fu_take"), {"t": "t2", "op": "set", "k": "k3", "v": "c"}, {"t": "t2", "op": "commit"}, L(["k1", "k2", "k3"], v="fu_saved"), A("rollback")]))
+    out[-1]["batch_size"] = 2
+    out.append(sc(62, B + [L(["k5"]), A("fu_take"), {"t": "t2", "op": "set", "k": "k4", "v": "c"}, {"t": "t2", "op": "commit"}, L(["k1", "k2", "k3", "k4"], v="fu_saved"), {"t": "t1", "op": "set", "k": "k5", "v": "x"}, A("commit")]))
+    out[-1]["batch_size"] = 3
     # deadlock: t2 holds k2 and has asked for k1 (held by t1); t1 asking for k2 closes the cycle
     out.append(sc(32, B + [L(["k1"]), {"t": "t2", "op": "lock", "ks": ["k2"], "wait": -1}, {"t": "t2", "op": "lock", "ks": ["k1"], "wait": 30}, L(["k3", "k2"], wait=30), A("commit"), {"t": "t2", "op": "rollback"}], splits=("k2", "k3")))
     # expiry of the previous attempt's locks (managed TTL 25 ms, 45 ms pause): the re-lock must be requested again
@@ -404,7 +445,7 @@ def gen_agg_program(rng, idx):
     prog.append({"t": "t1", "op": rng.choice(["commit", "commit", "rollback"])})
     if not t2_done:
         prog.append({"t": "t2", "op": rng.choice(["commit", "rollback"])})
-    return decorate(rng, {"id": f"a{idx}", "backend": BACKEND, "splits": splits, "preload": preload, "batch_size": rng.choice([0, 0, 24]),
+    return decorate(rng, {"id": f"a{idx}", "backend": BACKEND, "splits": splits, "preload": preload, "batch_size": rng.choice([0, 0, 24, 2, 3, 5]),
             "txn": {"mode": "2pc", "ops": []}, "txns": txns, "program": prog, "keys": KEYS, "black_from": -1})
 
 
@@ -495,6 +536,34 @@ def side_oracles(sc, r, exp=None):
             miss = [k for k in bk["locked"] if (s.get("locks") or {}).get(k) != S]
             if miss:
                 out.append(f"(A) at step {s['i']} the client has {sorted(bk['locked'])} flagged as locked but the store holds no lock of the transaction on {miss}")
+    # (W) an acknowledged commit has every key it wrote committed at its commit ts (nobody may resolve a living
+    #     transaction's prewrite locks as rolled back)
+    broke_ts_contract = any("less than previous LockedWithConflictTS" in str(s.get("err") or "") for s in steps)
+    if str(info.get("result")) == "ok" and info.get("commit_ts") and not broke_ts_contract:
+        # (not judged after the caller used a for-update ts below a conflict ts it was told: the code's "unreachable" path
+        #  keeps a tentative primary that is never locked, and the commit then has no primary batch)
+        last, inserted = {}, set()
+        for s in steps:
+            st = sc["program"][s["i"]]
+            if s["op"] in ("set", "del") and not s.get("err"):
+                last[st["k"]] = s["op"]
+            elif s["op"] == "insert":
+                inserted.add(st["k"])
+                if not s.get("err"):
+                    last[st["k"]] = "set"
+        fk = set(sc["txns"]["t1"].get("filter_keys") or [])
+        lost = []
+        for k, op in sorted(last.items()):
+            # not judged: filtered keys; keys touched by an insert that failed or was deleted again (the NewlyInserted flag
+            # outlives the discarded insert and makes a later Delete a legitimate "delete-your-writes" no-op)
+            if k in fk or (k in inserted and (op == "del" or any(s["op"] == "insert" and s.get("err") and sc["program"][s["i"]]["k"] == k for s in steps))):
+                continue
+            ws = ((r.get("audit_pre") or {}).get(k) or {}).get("writes") or []
+            if not any(w.get("start") == S and w.get("commit") == info["commit_ts"] and w.get("type") != "Rollback" for w in ws):
+                lost.append(k)
+        if lost:
+            out.append(f"(W) Commit was acknowledged (commit ts {info['commit_ts']}) but the writes of {lost} are not committed: " +
+                       str({k: [w for w in (((r.get('audit_pre') or {}).get(k) or {}).get('writes') or []) if w.get('start') == S] for k in lost})[:300])
     # heart-beats by window
     unhex = lambda h: bytes.fromhex(h).decode()
     by_i = {s["i"]: s for s in steps}
